@@ -144,6 +144,15 @@ Theorem C14_dense_commute_iff : forall {K} (O : Ops K), PLaws O -> forall ca cb 
 Proof. exact @ds_commute_iff. Qed.
 Print Assumptions C14_dense_commute_iff.
 
+(* converse: commuting matrices force the test to say so, unless 2 ca cb = 0 (then every product vanishes or char = 2) *)
+Theorem C14_pauli_commute_conv : forall {K} (O : Ops K), PLaws O -> forall qs (a b : pstr),
+  NoDup qs -> keys_ok qs (pm a) -> no_I (pm a) -> no_I (pm b) ->
+  kadd O (kmul O (coef a) (coef b)) (kmul O (coef a) (coef b)) <> k0 O ->
+  mmul O (ps_matrix O qs a) (ps_matrix O qs b) = mmul O (ps_matrix O qs b) (ps_matrix O qs a) ->
+  ps_commutes (pm a) (pm b) = true.
+Proof. exact @pauli_commute_conv. Qed.
+Print Assumptions C14_pauli_commute_conv.
+
 (* ---- D3: scalars, negation, squares and inverses, qubit remapping, dense <-> sparse, Pauli sums ---- *)
 Theorem C14_ps_scale_sound : forall {K} (O : Ops K), PLaws O -> forall qs (a : pstr) c,
   ps_matrix O qs (ps_scale O a c) = mscale O c (ps_matrix O qs a).
@@ -203,6 +212,24 @@ Theorem C14_psum_neg_sound : forall {K} (O : Ops K), PLaws O -> forall qs a,
 Proof. exact @psum_neg_sound. Qed.
 Print Assumptions C14_psum_neg_sound.
 
+(* ---- D5 (algebraic core of PauliStringPhasor): P.P = I makes { a I + b P } a commutative algebra; in the eigenvalue
+   parametrisation phases multiply (exponents add), and (wn, wp) = (-1, +1) is P ---- *)
+Theorem C14_phasor_algebra : forall {K} (O : Ops K), PLaws O -> forall l a b a' b',
+  mmul O (lin_ip O l a b) (lin_ip O l a' b')
+  = lin_ip O l (kadd O (kmul O a a') (kmul O b b')) (kadd O (kmul O a b') (kmul O b a')).
+Proof. exact @phasor_algebra. Qed.
+Print Assumptions C14_phasor_algebra.
+
+Theorem C14_phasor_compose : forall {K} (O : Ops K), Laws O -> forall l wn wp wn' wp',
+  mmul O (phasor_mat O l wn wp) (phasor_mat O l wn' wp') = phasor_mat O l (kmul O wn wn') (kmul O wp wp').
+Proof. exact @phasor_compose. Qed.
+Print Assumptions C14_phasor_compose.
+
+Theorem C14_phasor_minus_one : forall {K} (O : Ops K), Laws O -> forall l,
+  phasor_mat O l (kopp O (k1 O)) (k1 O) = dense_matrix O (k1 O) l.
+Proof. exact @phasor_minus_one. Qed.
+Print Assumptions C14_phasor_minus_one.
+
 (* the exact instance the correspondence run evaluates satisfies the hypotheses of every theorem above *)
 Theorem C14_GQ_PLaws : PLaws GQOps.
 Proof. exact GQ_PLaws. Qed.
@@ -228,3 +255,6 @@ Proof. eexists. reflexivity. Qed.
 Example C14_ex_map_qubits :
   ps_map_qubits [(0, 5); (1, 7)]%Z (mkP (gq 1 1 0 1) [(1, pZ); (0, pX)]%Z) = Some (mkP (gq 1 1 0 1) [(7, pZ); (5, pX)]%Z).
 Proof. reflexivity. Qed.
+Example C14_ex_nondegenerate :
+  kadd GQOps (kmul GQOps (gq 1 1 0 1) (gq 0 1 1 2)) (kmul GQOps (gq 1 1 0 1) (gq 0 1 1 2)) <> k0 GQOps.
+Proof. vm_compute. intros H. discriminate H. Qed.
